@@ -337,10 +337,15 @@ var ruleWalkDiscipline = &core.Rule{ID: "R03.2", Min: 6,
 			}
 			// walk: scan(cur, header, limit) with the walk's own arguments; nil ends the descent with the tail, non-nil becomes the current node
 			g, call := w.walk, w.scanCall
-			s.Check(call.Call.Args[1] == ssa.Value(g.Params[1]) && call.Call.Args[2] == ssa.Value(g.Params[2]), "child scan receives the walk's own (header, limit)", c.Pos(call.Pos()), "unmodified arguments", "the child scan is not given the walk's own unmodified header and limit")
+			for _, sc := range w.scanCalls {
+				s.Check(sc.Call.Args[1] == ssa.Value(g.Params[1]) && sc.Call.Args[2] == ssa.Value(g.Params[2]), "child scan receives the walk's own (header, limit): "+callOrdinal(sc), c.Pos(sc.Pos()), "unmodified arguments", "the child scan is not given the walk's own unmodified header and limit")
+				// it scans the children of the current node: the receiver first, afterwards the node just accepted
+				a0 := sc.Call.Args[0]
+				s.Check(a0 == w.cur || a0 == ssa.Value(g.Params[0]) || a0 == w.next, "child scan looks at the current node: "+callOrdinal(sc), c.Pos(sc.Pos()), "scan(current node)", "the child scan is started on a node other than the current one")
+			}
 			var iff *ssa.If
 			var nilEdge, nonNil *ssa.BasicBlock
-			for _, ref := range *call.Referrers() {
+			for _, ref := range *w.next.Referrers() {
 				if bo, ok := ref.(*ssa.BinOp); ok && core.IsNilConst(bo.Y) && (bo.Op == token.EQL || bo.Op == token.NEQ) {
 					for _, r2 := range *bo.Referrers() {
 						if x, ok := r2.(*ssa.If); ok {
@@ -408,6 +413,40 @@ var ruleCloneChain = &core.Rule{ID: "R03.3", Min: 5,
 		s.Check(len(f.Params) == 2 && first.ps == ssa.Value(f.Params[1]), "leaf clone carries the parameter map", c.Pos(first.val.Pos()), "clone(receiver, ps)", "the leaf clone is not built with the caller's parameter map")
 		for _, r := range core.Returns(f) {
 			s.Check(r.Results[0] == first.val, "returns the leaf clone: "+returnOrdinal(r), c.Pos(r.Pos()), "first clone", "the chain clone returns something other than the clone of its receiver")
+		}
+		// recursive spelling: copy(m, ps).parent = chain(parent(m), nil) as long as there is a parent
+		var self *ssa.Call
+		for _, ci := range core.Calls(f) {
+			if call, ok := ci.(*ssa.Call); ok && call.Call.StaticCallee() == f {
+				self = call
+			}
+		}
+		if self != nil {
+			s.Check(m.isParentOf(self.Call.Args[0], recv), "step to the next ancestor", c.Pos(self.Pos()), "chain(parent(receiver), nil)", "the recursion does not continue with the parent of the current node")
+			s.Check(len(self.Call.Args) == 2 && core.IsNilConst(self.Call.Args[1]), "ancestor clone has no parameters", c.Pos(self.Pos()), "nil parameter map", "an ancestor is cloned with a parameter map: the Parent() chain would carry parameters")
+			// it runs exactly when the current node has a parent
+			okCond := false
+			for _, de := range core.DominatingConds(self.Block()) {
+				cond, val := core.StripNot(de.Cond, de.Val)
+				if bo, ok := cond.(*ssa.BinOp); ok && core.IsNilConst(bo.Y) && m.isParentOf(bo.X, recv) && ((bo.Op == token.NEQ && val) || (bo.Op == token.EQL && !val)) {
+					okCond = true
+				}
+			}
+			// and nothing else decides: the only branch around the call is that test
+			nConds := len(core.DominatingConds(self.Block()))
+			s.Check(okCond && nConds == 1, "loop ends only at the root", c.Pos(self.Pos()), "condition parent != nil", "the ancestors are cloned under a condition other than `the node has a parent`: the chain could be cut short (a node whose type string equals the root's) or overrun")
+			linked := false
+			for _, ref := range *self.Referrers() {
+				if st, ok := ref.(*ssa.Store); ok && st.Val == ssa.Value(self) {
+					if fa, ok := st.Addr.(*ssa.FieldAddr); ok && fa.Field == m.tm.FParent && fa.X == first.val {
+						linked = true
+					}
+				}
+			}
+			s.Check(linked, "previous clone is linked to it", c.Pos(self.Pos()), "copy.parent = chain(parent, nil)", "the clone of the ancestors is not stored as parent of the node's clone")
+			s.OK("ancestor is cloned", c.Pos(self.Pos()), "by the recursion (leaf clone checked above)")
+			checkCopyFields(c, s, m, bodies, nil)
+			return
 		}
 		// the loop
 		var pPhi, lastPhi *ssa.Phi
@@ -488,56 +527,67 @@ var ruleCloneChain = &core.Rule{ID: "R03.3", Min: 5,
 				s.Check(linked, "previous clone is linked to it", c.Pos(cl.val.Pos()), "prev.parent = clone", "the clone of an ancestor is not stored as parent of the previous clone")
 			}
 		}
-		// the fields of every fresh result node
-		st := m.tm.Type.Underlying().(*types.Struct)
-		for _, fn := range []*ssa.Function{m.clone, m.chain} {
-			if fn == nil {
-				continue
-			}
-			for _, b := range fn.Blocks {
-				for _, in := range b.Instrs {
-					x, ok := in.(*ssa.Store)
-					if !ok {
+		checkCopyFields(c, s, m, bodies, lastPhi)
+	}}
+
+// checkCopyFields: the stores into fresh result nodes (in the clone function and in the chain function).
+func checkCopyFields(c *core.Ctx, s *core.Sink, m *walkModel, bodies []*nodeCopy, lastPhi *ssa.Phi) {
+	// the fields of every fresh result node
+	st := m.tm.Type.Underlying().(*types.Struct)
+	for _, fn := range []*ssa.Function{m.clone, m.chain} {
+		if fn == nil {
+			continue
+		}
+		for _, b := range fn.Blocks {
+			for _, in := range b.Instrs {
+				x, ok := in.(*ssa.Store)
+				if !ok {
+					continue
+				}
+				fa, ok := x.Addr.(*ssa.FieldAddr)
+				if !ok {
+					continue
+				}
+				if pt, ok := fa.X.Type().Underlying().(*types.Pointer); !ok || !types.Identical(pt.Elem(), m.tm.Type) {
+					continue
+				}
+				var nc *nodeCopy
+				for _, cand := range bodies {
+					if cand.alloc != nil && fa.X == ssa.Value(cand.alloc) {
+						nc = cand
+					}
+				}
+				if nc == nil {
+					// the link store prev.parent = copy is the only store through a non-fresh pointer, and prev is itself a copy (the carried phi)
+					if fn == m.chain && fa.Field == m.tm.FParent && lastPhi != nil && fa.X == ssa.Value(lastPhi) {
 						continue
 					}
-					fa, ok := x.Addr.(*ssa.FieldAddr)
-					if !ok {
-						continue
-					}
-					if pt, ok := fa.X.Type().Underlying().(*types.Pointer); !ok || !types.Identical(pt.Elem(), m.tm.Type) {
-						continue
-					}
-					var nc *nodeCopy
-					for _, cand := range bodies {
-						if cand.alloc != nil && fa.X == ssa.Value(cand.alloc) {
-							nc = cand
-						}
-					}
-					if nc == nil {
-						// the link store prev.parent = copy is the only store through a non-fresh pointer, and prev is itself a copy (the carried phi)
-						if fn == m.chain && fa.Field == m.tm.FParent && fa.X == ssa.Value(lastPhi) {
+					// recursive spelling: the fresh leaf copy (a clone call) is linked to the chain of its ancestors
+					if fn == m.chain && fa.Field == m.tm.FParent && m.copyOf(fa.X) != nil {
+						if rc, isCall := x.Val.(*ssa.Call); isCall && rc.Call.StaticCallee() == m.chain {
 							continue
 						}
-						s.Bad(fmt.Sprintf("%s: store to .%s of a non-fresh object", fn.Name(), st.Field(fa.Field).Name()), c.Pos(x.Pos()), "clone writes to something other than the object it allocates")
-						continue
 					}
-					key := fmt.Sprintf("%s: field .%s of the clone", fn.Name(), st.Field(fa.Field).Name())
-					switch fa.Field {
-					case m.tm.FMime:
-						s.OK(key, c.Pos(x.Pos()), "checked by R02.3")
-					case m.tm.FAliases, m.tm.FExt:
-						base, fld, ok := core.LoadOfField(x.Val)
-						s.Check(ok && fld == fa.Field && nc.src != nil && base == nc.src, key, c.Pos(x.Pos()), "copied from the cloned node", "a clone's field is not copied from the cloned node")
-					case m.tm.FParent:
-						// in-place form of the link: the parent of a fresh node may only be another fresh copy
-						s.Check(m.copyOf(x.Val) != nil, key, c.Pos(x.Pos()), "linked to a fresh copy", "a result node is linked to a node of the shared tree")
-					default:
-						s.Bad(key, c.Pos(x.Pos()), "clone sets a field (children / parent / detector) that a result value must not share with the tree")
-					}
+					s.Bad(fmt.Sprintf("%s: store to .%s of a non-fresh object", fn.Name(), st.Field(fa.Field).Name()), c.Pos(x.Pos()), "clone writes to something other than the object it allocates")
+					continue
+				}
+				key := fmt.Sprintf("%s: field .%s of the clone", fn.Name(), st.Field(fa.Field).Name())
+				switch fa.Field {
+				case m.tm.FMime:
+					s.OK(key, c.Pos(x.Pos()), "checked by R02.3")
+				case m.tm.FAliases, m.tm.FExt:
+					base, fld, ok := core.LoadOfField(x.Val)
+					s.Check(ok && fld == fa.Field && nc.src != nil && base == nc.src, key, c.Pos(x.Pos()), "copied from the cloned node", "a clone's field is not copied from the cloned node")
+				case m.tm.FParent:
+					// in-place form of the link: the parent of a fresh node may only be another fresh copy
+					s.Check(m.copyOf(x.Val) != nil, key, c.Pos(x.Pos()), "linked to a fresh copy", "a result node is linked to a node of the shared tree")
+				default:
+					s.Bad(key, c.Pos(x.Pos()), "clone sets a field (children / parent / detector) that a result value must not share with the tree")
 				}
 			}
 		}
-	}}
+	}
+}
 
 // R02.2 + R02.3
 var ruleParams = &core.Rule{ID: "R02.2", Min: 5,
@@ -568,6 +618,23 @@ var ruleParams = &core.Rule{ID: "R02.2", Min: 5,
 				continue
 			}
 			ps := call.Call.Args[1]
+			if ph, isPhi := ps.(*ssa.Phi); isPhi {
+				// nil on the paths without a charset, one fresh map on the path with it
+				var one ssa.Value
+				okPhi := true
+				for _, e := range ph.Edges {
+					if core.IsNilConst(e) {
+						continue
+					}
+					if _, isMk := e.(*ssa.MakeMap); !isMk || (one != nil && one != e) {
+						okPhi = false
+					}
+					one = e
+				}
+				if okPhi && one != nil {
+					ps = one
+				}
+			}
 			mk, ok := ps.(*ssa.MakeMap)
 			if !ok {
 				s.Check(core.IsNilConst(ps), "parameter map origin", c.Pos(call.Pos()), "nil", "the parameter map handed to the chain clone is neither fresh nor nil")
@@ -646,6 +713,11 @@ var ruleParams = &core.Rule{ID: "R02.2", Min: 5,
 					}
 					s.Check(okVal, "charset value provenance", c.Pos(x.Pos()), "sniffer[receiver type](header)", "the charset value is not the result of the sniffer selected by the receiver's own type on the walk's unmodified header")
 				case *ssa.Call, *ssa.DebugRef:
+				case *ssa.Phi:
+					// nil-or-this-map selection handed to the chain clone
+					if ssa.Value(x) != call.Call.Args[1] {
+						s.Bad("parameter map use", c.Pos(ref.Pos()), "the parameter map escapes or is modified in an unrecognised way")
+					}
 				default:
 					s.Bad("parameter map use", c.Pos(ref.Pos()), "the parameter map escapes or is modified in an unrecognised way")
 				}
